@@ -162,7 +162,13 @@ def one(ctx, desc):
                 t = oracles.ptol(r, TOL) if col in ("pwr", "loss") else 8 * solved.ATOL * (1 + abs(r[col]))
                 if abs(r[col] - b[col]) > t + 1e-7 * max(abs(r[col]), abs(b[col])):
                     kind = [c["kind"] for c in desc["comps"] if c["name"] == n][0]
-                    ctx.oracle(desc, "phase_behaviour", kind, {"col": col},
+                    # finding F38 (C04): a sleeping stage whose sleep current is below numpy's atol can be left at its initial guess
+                    # (0 A) by the tolerance exit - and a stage above it whose law switches on `io == 0` then differs by MORE than that
+                    lim = 1e-8 * len(desc["comps"])
+                    stuck = [c["name"] for c in desc["comps"] if c["kind"] in SLEEP and c.get("pconf") is not None
+                             and p["phase"] not in c["pconf"] and 0.0 < abs(c["args"].get("iis", 0.0)) < lim
+                             and rows[c["name"]]["iin"] == 0.0 and rows[c["name"]]["vin"] != 0.0]
+                    ctx.oracle(desc, "phase_behaviour", kind, {"col": col, "sub_atol_sleep_current_stuck": bool(stuck)},
                                {"phase": p["phase"], "row": n, "col": col, "phase_table": r[col], "behaviour_system": b[col],
                                 "pconf": [c.get("pconf") for c in desc["comps"] if c["name"] == n][0]})
                     break
